@@ -1,7 +1,7 @@
 ---- MODULE MC_Containers ----
 EXTENDS CincoContainers
 MCItemF == With(IntF, [hasmin |-> TRUE, min |-> 0])
-MCOtherF == With(StringF, [stripm |-> "ws"])
+MCOtherF == IntF    \* same storage type as the item field, weaker constraints
 MCKeyF == With(StringF, [tcase |-> "upper"])
 MCValF == With(IntF, [hasmin |-> TRUE, min |-> 0])
 MCItemCands == {IntV(0), IntV(2), StrV(<<"1">>), IntV(-1), StrV(<<"x">>), StrV(<<" ", "3">>)}
